@@ -253,6 +253,44 @@ def expand_calls(unit: "CUnit", n: CNode, depth: int = 3) -> CNode:
     return go(n, depth)
 
 
+def inline_statement_calls(unit: "CUnit", n: CNode, depth: int = 2) -> CNode:
+    """
+    Copy of statement tree n in which a call statement `f(a, ..);` of a function of this unit without a return value in use is
+    replaced by the body of f with the parameters substituted (arguments must be side-effect free).  For shape rules that look
+    for an effect (a store, a decrement) which a refactoring moved into a static helper.
+    """
+    def pure(e: CNode) -> bool:
+        return not any(x.kind in ("CallExpr", "CompoundAssignOperator") or
+                       (x.kind == "UnaryOperator" and x.props.get("opcode") in ("++", "--")) or
+                       (x.kind == "BinaryOperator" and x.props.get("opcode") == "=") for x in [e] + list(e.walk()))
+
+    def subst(e: CNode, env: Dict[str, CNode]) -> CNode:
+        if e.kind == "DeclRefExpr" and e.props.get("ref") in env:
+            return env[e.props["ref"]]
+        return CNode(e.kind, dict(e.props), [subst(c, env) for c in e.children], e.line)
+
+    def go(e: CNode, d: int, stmt_pos: bool) -> CNode:
+        if e.kind == "CallExpr" and stmt_pos and d > 0 and e.children:
+            callee = strip(e.children[0])
+            name = callee.props.get("ref") if callee.kind == "DeclRefExpr" else None
+            fn = unit.functions.get(name) if name else None
+            if fn is not None:
+                bodies = [c for c in fn.children if c.kind == "CompoundStmt"]
+                params = [c.props.get("name", "") for c in fn.children if c.kind == "ParmVarDecl"]
+                args = e.children[1:]
+                if bodies and len(params) == len(args) and all(pure(a) for a in args) \
+                        and not any(x.kind in ("ReturnStmt", "WhileStmt", "ForStmt", "DoStmt") for x in bodies[0].walk()):
+                    inner = subst(bodies[0], dict(zip(params, args)))
+                    return go(CNode("CompoundStmt", {}, list(inner.children), e.line), d - 1, True)
+        kids = []
+        for i, c in enumerate(e.children):
+            child_is_stmt = e.kind == "CompoundStmt" or (e.kind == "IfStmt" and i >= 1) or \
+                (e.kind in ("WhileStmt", "ForStmt") and i == len(e.children) - 1)
+            kids.append(go(c, d, child_is_stmt))
+        return CNode(e.kind, dict(e.props), kids, e.line)
+    return go(n, depth, True)
+
+
 def strip(n: CNode) -> CNode:
     """Remove implicit casts / parentheses."""
     while n.kind in ("ImplicitCastExpr", "ParenExpr", "CStyleCastExpr") and n.children:
